@@ -10,6 +10,8 @@ class Mod:
     def __init__(s): s.types = {}; s.globals = {}; s.funcs = {}; s.decls = {}
 
 PTR = 8
+RPO = os.environ.get('IR2C_RPO') == '1'  # emit basic blocks in reverse post-order: only real loops keep backward jumps
+TYPED_ALLOCA = os.environ.get('IR2C_TYPED_ALLOCA') == '1'  # stack objects of struct type become C structs with typed members
 EH = os.environ.get('IR2C_EH') == '1'  # callees may throw: model unwinding through verif_exn
 def skipws(x, i):
     while i < len(x) and x[i] in ' \t': i += 1
@@ -101,6 +103,18 @@ def ctype(t, m):
     if t.k == 'void': return 'void'
     if t.k == 'struct': return None
     raise Exception('ctype '+t.k)
+def cmember(t, m, name):
+    """C declaration of one object/member of LLVM type t (layout-compatible: natural alignment)"""
+    t = resolve(t, m)
+    if t.k == 'int': return '%s %s' % ({1:'uint8_t',8:'uint8_t',16:'uint16_t',32:'uint32_t',64:'uint64_t'}[t.bits], name)
+    if t.k == 'float': return 'float ' + name
+    if t.k == 'double': return 'double ' + name
+    if t.k == 'ptr': return 'char* ' + name
+    if t.k == 'array': return cmember(t.e, m, '%s[%d]' % (name, t.n))
+    if t.k == 'struct':
+        body = ' '.join(cmember(f, m, 'f%d' % i) + ';' for i, f in enumerate(t.fs)) or 'char empty_;'
+        return 'struct %s{ %s } %s' % ('__attribute__((packed)) ' if t.packed else '', body, name)
+    raise Exception('cmember ' + t.k)
 def stype(t, m):
     return {'uint8_t':'int8_t','uint16_t':'int16_t','uint32_t':'int32_t','uint64_t':'int64_t'}[ctype(t,m)]
 
@@ -349,7 +363,26 @@ def emit_function(fn, out):
                 for g in re.finditer(r'\[\s*(.*?),\s*%([\w.\-$]+)\s*\]', mm.group(2)[j:]):
                     inc[g.group(2)] = parse_value(g.group(1), 0, t, fn)[0]
                 phis_for.setdefault(bn, []).append((r, t, inc))
-    for bn, ins in fn.blocks:
+    order = fn.blocks
+    if RPO:
+        succ = {}
+        for bn, ins in fn.blocks:
+            t = ins[-1] if ins else ''
+            succ[bn] = re.findall(r'label %([\w.\-$]+)', t)
+        seen = set(); post = []
+        def dfs(b0):
+            st = [(b0, iter(succ.get(b0, [])))]; seen.add(b0)
+            while st:
+                b, it = st[-1]
+                for nx in it:
+                    if nx not in seen and nx in succ: seen.add(nx); st.append((nx, iter(succ[nx]))); break
+                else: post.append(b); st.pop()
+        dfs(fn.blocks[0][0])
+        rpo = list(reversed(post)); pos = {b: i for i, b in enumerate(rpo)}
+        byname = dict(fn.blocks)
+        order = [(b, byname[b]) for b in rpo] + [(b, ins) for b, ins in fn.blocks if b not in pos]
+        if order[0][0] != fn.blocks[0][0]: raise Exception('entry block is not first in RPO')
+    for bn, ins in order:
         code.append('%s: ;' % lbl(fn, bn))
         # landing pads are only entered through `invoke @__cxa_throw` of the same function (callees
         # are C functions / noexcept and never unwind: their invoke gets the normal edge only)
@@ -411,7 +444,12 @@ def emit_ins(fn, bn, s, edge, nva, decl):
         if resolve(t, m).k == 'array' and resolve(resolve(t, m).e, m).k == 'struct' and 'va_list_tag' in rest:
             v = 'valist%d' % nva[0]; nva[0] += 1; decl.append('  va_list %s;' % v); fn.va[r] = v
             return '%s = (char*)&%s;' % (r, v)
-        n = 'mem_' + r; decl.append('  char %s[%d] __attribute__((aligned(16))) = {0};' % (n, max(1, sizeof(t, m))))
+        n = 'mem_' + r
+        if TYPED_ALLOCA and resolve(t, m).k == 'struct' and resolve(t, m).fs:
+            decl.append('  %s __attribute__((aligned(16))) = {0};' % cmember(t, m, n))
+            decl.append('  char szchk_%s[sizeof(%s) == %d ? 1 : -1];' % (r, n, sizeof(t, m)))
+            return '%s = (char*)&%s;' % (r, n)
+        decl.append('  char %s[%d] __attribute__((aligned(16))) = {0};' % (n, max(1, sizeof(t, m))))
         return '%s = %s;' % (r, n)
     if op == 'atomicrmw':
         rest = re.sub(r'^(?:volatile )?', '', rest); aop = rest.split()[0]; a = split_args(rest[len(aop):])
